@@ -2,6 +2,7 @@ import Driver.Lb
 import Driver.LbSpec
 import Driver.Pollh
 import Driver.Adapter
+import Driver.Own
 import Driver.Closed
 import Driver.Stream
 import Driver.OpCache
@@ -17,6 +18,7 @@ def main (args : List String) : IO UInt32 := do
   match args with
   | ["lb"] => Driver.Lb.main; return 0
   | ["lbspec", ops, impl] => Driver.LbSpec.main ops impl; return 0
+  | ["own"] => Driver.Own.main; return 0
   | ["pollh", ops, impl] => Driver.Pollh.main ops impl; return 0
   | ["opcache"] => Driver.OpCache.main; return 0
   | ["stream"] => Driver.Stream.main; return 0
